@@ -28,7 +28,7 @@ import pyhf
 from . import decide, sym
 from .backend import sym_backend
 from .conc import CV
-from .sym import CTX, SB, SV, Infeasible, PathBudgetExceeded, Unsupported, explore, ite, sb, uf_apply, zexpr
+from .sym import CTX, SB, SV, Infeasible, PathBudgetExceeded, Unsupported, WallBudgetExceeded, explore, ite, sb, uf_apply, zexpr
 
 REL_TOL = 1e-9
 ABS_TOL = 1e-12
@@ -348,11 +348,13 @@ class _EnoughEvidence(Exception):
 
 
 def run_item(harness, item, *, tier="quick", max_paths=256, timeout_ms=20000, cell_limit=4096,
-             twin=False, validate=0, profile=False, seed=0, params=None, max_models=4):
+             twin=False, validate=0, profile=False, seed=0, params=None, max_models=4, wall_s=None):
     """explore all paths of harness(env) symbolically, decide every obligation, replay sat ones"""
     res = Result(item)
     t_start = time.time()
     CTX.reset()
+    wall_s = wall_s or (600 if tier == "quick" else 3000)
+    CTX.deadline = t_start + wall_s
     decide.reset_stats()
     rng = random.Random(hashlib.sha256(f"{seed}:{item}".encode()).digest())
     pending_replays = []      # (label, key, model, detail, twin_label)
@@ -459,6 +461,12 @@ def run_item(harness, item, *, tier="quick", max_paths=256, timeout_ms=20000, ce
             except _EnoughEvidence:
                 res.paths = n_paths[0]
                 res.notes.append(f"exploration stopped after {n_paths[0]} paths: counterexample candidates found and {EARLY_STOP_S}s used; remaining paths not explored")
+            except WallBudgetExceeded:
+                res.paths = n_paths[0]
+                if pending_replays:
+                    res.notes.append(f"exploration stopped after {n_paths[0]} paths: wall budget of {wall_s}s used; counterexample candidates are replayed")
+                else:
+                    res.inconclusive.append({"label": "<wall budget>", "detail": f"work item exceeded its wall budget of {wall_s}s after {n_paths[0]} paths"})
         finally:
             if profile:
                 sys.setprofile(None)
@@ -466,6 +474,7 @@ def run_item(harness, item, *, tier="quick", max_paths=256, timeout_ms=20000, ce
         if res.paths == 0:
             res.inconclusive.append({"label": "<no feasible path>", "detail": "assumptions unsatisfiable?"})
 
+        CTX.deadline = time.time() + wall_s / 2       # replays / validation / twin: a further half budget
         # ---- replay of counterexamples -----------------------------------------------------------
         symbols = dict(CTX.symbols)
         for pr in pending_replays:
@@ -577,12 +586,19 @@ def run_item(harness, item, *, tier="quick", max_paths=256, timeout_ms=20000, ce
                     explore(run_twin, max_paths=max_paths)
                 except _EnoughEvidence:
                     pass
+                except WallBudgetExceeded:
+                    res.notes.append(f"twin on '{tl}' abandoned: wall budget")
+                    if not found["replayed"]:
+                        res.twin = None
+                        break
                 res.twin = bool(found["sat"] and found["replayed"])
                 res.notes.append(f"twin perturbed '{tl}': sat={found['sat']} replayed={found['replayed']}")
                 if res.twin or found["present"]:
                     break
     except PathBudgetExceeded as e:
         res.inconclusive.append({"label": "<path budget>", "detail": str(e)})
+    except WallBudgetExceeded:
+        res.inconclusive.append({"label": "<wall budget>", "detail": f"work item exceeded its wall budget ({wall_s}s + {wall_s // 2}s)"})
     except Unsupported as e:
         res.inconclusive.append({"label": "<unsupported>", "detail": str(e)})
     except Exception as e:
